@@ -228,8 +228,86 @@ func checkC08(p *Prog, r *Report) {
 				"exported and imported", fmt.Sprintf("family %s is written by handlers but exported=%v imported=%v: that state is lost across export/import", f, e, i))
 		}
 		r.Floor("aol-families-written-by-handlers", len(fams), 4)
+		// D6 genesis validation demands no referential integrity towards a family whose entries handlers delete:
+		// "every A entry has its B entry" is not an invariant of reachable states when some handler deletes B entries and leaves
+		// the A entries in place (records outlive their writer), so the chain's own export would be rejected.
+		deletable := map[string]bool{}
+		for _, fn := range m.handlers {
+			o := NewOrigin(p, fn)
+			for _, ac := range m.accessorCalls(fn, o) {
+				if ac.acc.Op == "Delete" {
+					deletable[ac.acc.Family] = true
+				}
+			}
+		}
+		r.Floor("aol-families-deleted-by-handlers", len(deletable), 1)
+		if gsT := p.Named(Rel("x/aol/types"), "GenesisState"); gsT != nil {
+			if val := p.MethodOf(gsT, "Validate"); val != nil {
+				reach := p.ReachFrom([]*ssa.Function{val}, func(f *ssa.Function) bool { return InModule(f) && !p.IsGenerated(f) })
+				nLook := 0
+				for _, fn := range reach.Order {
+					for _, b := range fn.Blocks {
+						for _, in := range b.Instrs {
+							lk, ok := in.(*ssa.Lookup)
+							if !ok {
+								continue
+							}
+							fld, ok := rawFieldLoad(lk.X)
+							if !ok {
+								continue
+							}
+							nLook++
+							fam := strings.TrimSuffix(fld, "s")
+							key := kp("VALIDATE", "aol-genesis-lookup:"+FuncName(fn)+"→"+fld)
+							if deletable[fam] {
+								r.Fail(key, "genesis validation requires the presence of another entry only in families whose entries are never deleted", p.Pos(lk.Pos()),
+									fmt.Sprintf("%s (reached from GenesisState.Validate) looks an entry up in %s, but a message handler deletes %s entries while entries that refer to them stay: a state reached by ordinary transactions fails the chain's own genesis validation after export", FuncName(fn), fld, fam))
+							} else {
+								r.OK(key, "genesis validation requires the presence of another entry only in families whose entries are never deleted", p.Pos(lk.Pos()),
+									fmt.Sprintf("lookup in %s: no handler deletes %s entries", fld, fam))
+							}
+						}
+					}
+				}
+				r.Count("aol-genesis-validate-cross-lookups", nLook)
+				// positive control (the expected count on the real tree is zero): the matcher recognises a lookup in a map field of a by-value receiver
+				if fx, err := buildFixture(p, "gsfx", "package gsfx\n\ntype GS struct{ Writers map[string]*int }\n\nfunc (g GS) Has(k string) bool { return g.Writers[k] != nil }\n\nfunc (g *GS) HasP(k string) bool { _, ok := g.Writers[k]; return ok }\n"); err != nil {
+					r.Undecided(kp("VALIDATE", "aol-genesis-lookups#control"), "positive control for the lookup matcher", "checker/c08.go", "fixture does not build: "+err.Error())
+				} else {
+					got := 0
+					for _, fxfn := range fixtureMethods(fx, "GS") {
+						for _, b := range fxfn.Blocks {
+							for _, in := range b.Instrs {
+								if lk, ok := in.(*ssa.Lookup); ok {
+									if fld, ok := rawFieldLoad(lk.X); ok && fld == "Writers" {
+										got++
+									}
+								}
+							}
+						}
+					}
+					r.Check(got == 2, kp("VALIDATE", "aol-genesis-lookups#control"), "positive control: the matcher recognises map lookups in a field of a by-value and of a pointer receiver", "checker/c08.go (in-memory fixture, not executed)",
+						fmt.Sprintf("%d of 2 fixture lookups matched", got), fmt.Sprintf("%d of 2 fixture lookups matched: the matcher is broken", got))
+				}
+				r.OK(kp("VALIDATE", "aol-genesis-lookups#scan"), "genesis validation requires the presence of another entry only in families whose entries are never deleted", p.FnPos(val),
+					fmt.Sprintf("%d functions reachable from GenesisState.Validate, %d map lookups into genesis families, deletable families: %v", len(reach.Order), nLook, keysOf(deletable)))
+			} else {
+				r.Fail(kp("VALIDATE", "aol-genesis#anchor"), "anchor", "x/aol/types/genesis.go", "GenesisState.Validate not found")
+			}
+		}
 		// untransformed import + no skip (shared with C01/C13)
 		aolRules(p, r, "C08", func(tag string) bool { return tag == "genesis" || tag == "family" })
+	}
+
+	// one keeper (hence one exporting/importing module) per custom store
+	{
+		w := BuildWire(p)
+		for _, pr := range w.Problems {
+			r.Undecided(kp("WIRE", "config#"+pr), "application configuration must be a literal the checker can evaluate", "app/", pr)
+		}
+		wireKeyOwnership(p, r, w, "C08", "aol", []string{"x/aol/keeper.NewKeeper"}, "AOL data")
+		wireKeyOwnership(p, r, w, "C08", "did", []string{"x/did/keeper.NewKeeper"}, "DID documents")
+		wireKeyOwnership(p, r, w, "C08", "pnft", []string{"x/pnft/keeper.NewKeeper"}, "denoms and tokens")
 	}
 
 	// ---------------- DID ----------------
@@ -413,4 +491,13 @@ func checkUnconditionalLoopEffectByCallee(p *Prog, r *Report, key string, fn *ss
 		}
 		return sc.Name() != "SaveDenom"
 	}, "import restores every genesis entry, with no conditional skip")
+}
+
+func keysOf(m map[string]bool) []string {
+	var out []string
+	for k := range m {
+		out = append(out, k)
+	}
+	sort.Strings(out)
+	return out
 }
